@@ -144,6 +144,14 @@ theorem cons_step {pol : Policy K} {sm : Smoother K S} {allow : Bool} (hpol : Po
     by rw [Amg.sortRows_nrows, Amg.sortRows_ncols, d2, d3], ?_, by rw [matOf_sortRows, d4]⟩
   rw [hR, hR0, matOf_sortRows, matOf_transpose P0 hP0n hm, hP, matOf_sortRows]
 
+omit [DecidableEq K] in
+/-- the top matrix of a built abstract hierarchy (no order on `K` needed) -/
+theorem hier_build_A (pre post : SmootherFamily K) {n : ℕ} (A : Matrix (Fin n) (Fin n) K) (T : Transfers K n) :
+    (Hier.build pre post A T).A = A := by
+  cases T with
+  | coarsest d => cases d <;> rfl
+  | cons P R rest => rfl
+
 /-! ### the induction -/
 
 /-- **a constructed hierarchy realises the abstract hierarchy built from its transfer operators** -/
